@@ -309,6 +309,27 @@ class RootOracle:
         return tuple(out)
 
 
+    def is_shortlex(self, word):
+        """word is reduced and is the least reduced expression of its element (same
+        computation as `shortlex`, stopping at the first differing letter)"""
+        word = tuple(word)
+        if not self.is_reduced(word):
+            return False
+        cur = word
+        for pos in range(len(word)):
+            rev = tuple(reversed(cur))
+            for s in range(self.n):
+                if self.right_descent(rev, s):
+                    break
+            else:
+                raise OracleError("non-trivial element without left descent")
+            if s != word[pos]:
+                return False
+            # word[pos] is a left descent of cur = word[pos:], so stripping it leaves word[pos+1:]
+            cur = word[pos + 1:]
+        return True
+
+
 # ---------------------------------------------------------------------------
 def cosine_form(matrix):
     m = normalise(matrix)
